@@ -323,6 +323,12 @@ def check_api(prop, tier, deadline):
                 rep.add(v["sig"], v["detail"], {"engine": "misc", "mode": "residue", "tier": tier, "input": v["case"]}, v["count"])
         for c in sweep["crashed"]:
             rep.add("crash/residue_sweep", "worker died on " + c, {"engine": "misc", "mode": "residue", "tier": tier, "input": c})
+    sizes = None
+    if prop == "C01":   # content whose size sits at a field boundary (127|128, 255, 32767|32768, 65535) yet within every capacity limit must round-trip like any other
+        sizes = run_misc("c17", "quick")
+        for v in sizes["violations"]:
+            if not v["sig"].startswith("C10|") and "beyond-limit" not in v["sig"] and ("reload_" in v["sig"] or "crash" in v["sig"]):
+                rep.add("sizes/" + v["sig"], v["detail"], {"engine": "misc", "mode": "c17", "tier": "quick", "input": v["case"]}, v["count"])
     limits = None
     if prop == "C10":   # refused declarations at the capacity limits (256th point, ...) must also leave the object unchanged
         limits = run_misc("c17", "quick")
@@ -340,6 +346,8 @@ def check_api(prop, tier, deadline):
         runs.append(d)
         shutil.rmtree(d["_scratch"], ignore_errors=True)
     rep.coverage = cov_from_api(runs)
+    if sizes:
+        rep.coverage["in_limit_sizes_at_field_boundaries"] = {"cases": sizes["single_cases"], "rule": "C17's single-limit builder: every quantity at 127|128 / 32767|32768 (signed boundary of its field), L-1 and L; saved, reloaded, compared"}
     if limits:
         rep.coverage["refused_calls_at_capacity_limits"] = {"cases": limits["done"]}
     if sweep:
@@ -517,7 +525,7 @@ def check_c17(tier, deadline):
             rep.add(v["sig"], v["detail"], {"engine": "misc", "mode": "c17", "tier": tier, "input": v["case"]}, v["count"])
     rep.coverage = {"evaluations": d["done"], "distinct_nontrivial": d["done"],
                     "rule": "for each capacity limit L (parameter description 255, parameter/group name 127, dimension entry 255, string length 255, string count 255, points 255, channels 255, "
-                            "frames 32767, 16-bit integer extremes, parameter blocks 255, record next-offset 65535) content built through the API at L-1, L, L+1 and far beyond, alone (quick) and in all "
+                            "frames 32767, 16-bit integer extremes, parameter blocks 255, record next-offset 65535) content built through the API at the signed boundary of the carrying field (127|128, 32767|32768), at L-1, L, L+1 and far beyond, alone (quick) and in all "
                             "pairs (thorough; pairs with > 10^7 points are not built); at or below L: save, reload, compare; above L: save must throw or the reload must equal the saved object; "
                             "a failing pair that contains a failing single is attributed to that single. The last-frame-number limit 65535 is not reachable through the API (first frame is always 1) "
                             "and is covered on the file side by C12's header sweep",
